@@ -63,6 +63,8 @@ class Run:
         self.notes = []
 
     def add(self, res: Result, keep_samples=1):
+        if os.environ.get("XMC_VERBOSE"):
+            print(f"  .. {res.world.cfg} states={res.states} trans={res.transitions} wall={res.wall:.1f}s viol={len(res.violations)}", flush=True)
         self.configs += 1
         self.states += res.states
         self.transitions += res.transitions
